@@ -171,6 +171,19 @@ func runC20(c *CaseCtx) {
 	// pre-populate with a short history so that calls hit non-empty structures
 	u := &Universe{Buckets: []string{"b1", "b2"}, KVKeys: [][]byte{[]byte("a"), []byte("k1"), []byte("1")}, ListKeys: [][]byte{[]byte("l1")}, SetKeys: [][]byte{[]byte("s1")}, DS: cfg.Mode == 0}
 	g := &Gen{R: r, U: u, Cfg: cfg, KV: true, List: cfg.Mode == 0, Set: cfg.Mode == 0, ZSet: cfg.Mode == 0, MaxOps: 4, M: NewModel()}
+	if c.Case%4 == 0 {
+		// a bucket with enough keys for a B+ tree of several levels, written in an order that splits inner nodes at
+		// their left edge as well (descending runs)
+		n := 40 + r.Intn(60)
+		perm := r.Perm(n)
+		for i := 0; i < n; i++ {
+			k := perm[i]
+			if c.Case%8 == 0 {
+				k = n - 1 - i
+			}
+			execTx(db, TxSpec{Mode: "update", Ops: []Op{{K: "Put", B: "b1", Key: []byte(fmt.Sprintf("p%03d", k)), Val: []byte("v")}}})
+		}
+	}
 	for i := 0; i < 12; i++ {
 		t := g.WriteTx(false)
 		out := execTx(db, t)
